@@ -145,12 +145,13 @@ OVERRIDES = [
     (r'^c26_(slice_(whole|first|negative|empty|zero|far)|insert_(at|after|past|zero|minus|far|into)|index_first|length_counts|case_functions)', dict(bounded='the concrete string "äbc" (and four other literals), seven concrete index pairs / indices',
         functions=['string.slice / insert / index / length (complete closure bodies, extracted ranges)'])),
     (r'^c29_number_', dict(functions=['Number::ceil', 'Number::floor', 'Number::round', 'Number::abs', 'Number::trunc'])),
+    (r'^c29_unitless_check_all', dict(bounded=None, functions=['math::unitless', 'functions::check::unitless (complete bodies, extracted; Value / Numeric / Number instantiated at a double with a unit tag; error text dropped)'])),
     (r'^c29_clamp_(all_doubles|rejects)', dict(bounded=None, functions=['math.clamp (complete closure body, extracted range; Numeric / Value instantiated at a double with a unit tag)'])),
     (r'^c29_clamp_returns_', dict(bounded='four concrete (min, number, max) triples in px', functions=['math.clamp (complete closure body, extracted range)'],
                           kind='attempt', tier='thorough', timeout=2400)),  # measured: > 900 s (UnitSet::is_compatible builds BTreeMaps)
     (r'^c29_percentage', dict(bounded='four probe values')),
     (r'^c29_(ceil|floor|round)_keeps_unit', dict(bounded='three probe values (2.5, -2.5, 7); the primitives are complete in number.rs')),
-    (r'^c29_unitless_', dict(bounded='four concrete units (none, %, fr, px), one harness each', functions=['math::unitless (argument check of pow / sqrt / log / exp)'])),
+    (r'^c29_unitless_(accepts|rejects)_', dict(bounded='four concrete units (none, %, fr, px), one harness each', functions=['math::unitless (argument check of pow / sqrt / log / exp)'])),
     (r'^c29_min_max_', dict(bounded='three / two concrete arguments (90px, 1in, 95px; 2, 3; 1px, 1s)')),
     (r'^c36_(expanded|compressed)_', dict(bounded=None, functions=['output::transform::handle_item (Item::Comment arm; extracted range)'])),
     (r'^c16_(media|atrule|keyframes|for|while|each)_', dict(functions=['output::transform::handle_item (arms Item::AtMedia, Item::AtRule, Item::For, Item::While, Item::Each; extracted ranges run against recording stand-ins for ScopeRef / handle_body / check_body)'],
